@@ -16,6 +16,8 @@
 #include "upipe-modules/upipe_transfer.h"
 #include "upipe-modules/upipe_worker.h"
 #include "upipe-modules/upipe_worker_linear.h"
+#include "upipe-modules/upipe_worker_sink.h"
+#include "upipe-modules/upipe_worker_source.h"
 #include "upipe/uprobe_transfer.h"
 #include "upipe/uprobe_prefix.h"
 
@@ -23,6 +25,12 @@
 
 static const char *g_script = "waofiir";
 static int g_qlen = 2;
+/* which worker: 0 linear (queues on both sides), 1 sink worker (the remote pipe consumes), 2 source
+ * worker (the remote pipe produces NSRC buffers from its own pump in the remote thread) */
+static int g_kind = 0;
+#define NSRC 2
+static bool g_idle[2];
+static int g_stuck = -1, g_stuck_got;
 
 static struct px_fix fx;
 static struct upump_mgr *g_mgr[2];
@@ -48,6 +56,16 @@ static struct remote {
     struct uref *flow_def;
     bool flow_def_sent;
     int use_after_dead;
+    /* sink worker: what arrived */
+    int narr;
+    struct {
+        int seq, flow, thread;
+    } arr[16];
+    int cur_flow;
+    /* source worker: the pump */
+    struct upump *pump;
+    int emitted;
+    bool ended;
 } R;
 
 static void fail(const char *sig, const char *fmt, ...)
@@ -76,6 +94,20 @@ static void remote_input(struct upipe *upipe, struct uref *uref, struct upump **
 {
     (void)upipe;
     remote_log(-2);
+    if (g_kind == 1) {
+        uint64_t seq = 99;
+        uref_attr_get_unsigned(uref, &seq, UDICT_TYPE_UNSIGNED, "x.seq");
+        if (R.narr < 16) {
+            R.arr[R.narr].seq = (int)seq;
+            R.arr[R.narr].flow = R.flow_def ? R.cur_flow : -1;
+            R.arr[R.narr].thread = vs_self();
+            R.narr++;
+        }
+        vs_atomic_begin();
+        uref_free(uref);
+        vs_atomic_end();
+        return;
+    }
     if (R.output == NULL || R.flow_def == NULL) {
         uref_free(uref);
         return;
@@ -87,11 +119,45 @@ static void remote_input(struct upipe *upipe, struct uref *uref, struct upump **
     upipe_input(R.output, uref, upump_p);
 }
 
+/* source worker: one buffer per dispatch, then end of source */
+static void remote_src_cb(struct upump *upump)
+{
+    (void)upump;
+    remote_log(-3);
+    if (R.output == NULL)
+        return; /* not wired yet: try again at the next iteration */
+    if (R.emitted >= NSRC) {
+        upump_stop(R.pump);
+        upump_free(R.pump);
+        R.pump = NULL;
+        R.ended = true;
+        upipe_throw_source_end(&R.upipe);
+        return;
+    }
+    if (!R.flow_def_sent) {
+        upipe_set_flow_def(R.output, R.flow_def);
+        R.flow_def_sent = true;
+    }
+    vs_atomic_begin();
+    struct uref *u = px_uref(&fx, R.emitted, 2, 1, false);
+    vs_atomic_end();
+    g_sent_flow[R.emitted] = 1;
+    R.emitted++;
+    g_sent = R.emitted;
+    upipe_input(R.output, u, &R.pump);
+}
+
 static int remote_control(struct upipe *upipe, int command, va_list args)
 {
     switch (command) {
     case UPIPE_ATTACH_UPUMP_MGR:
         remote_log(command);
+        if (g_kind == 2 && R.pump == NULL && !R.ended) {
+            int t = vs_self() < 0 ? 0 : vs_self();
+            R.pump = upump_alloc_idler(g_mgr[t], remote_src_cb, &R, NULL);
+            assert(R.pump);
+            upump_start(R.pump);
+        }
         return UBASE_ERR_NONE;
     case UPIPE_REGISTER_REQUEST: {
         remote_log(command);
@@ -104,8 +170,13 @@ static int remote_control(struct upipe *upipe, int command, va_list args)
     case UPIPE_SET_FLOW_DEF: {
         remote_log(command);
         struct uref *f = va_arg(args, struct uref *);
+        vs_atomic_begin();
         uref_free(R.flow_def);
         R.flow_def = uref_dup(f);
+        vs_atomic_end();
+        uint64_t id = 0;
+        uref_flow_get_id(f, &id);
+        R.cur_flow = (int)id;
         R.flow_def_sent = false;
         return UBASE_ERR_NONE;
     }
@@ -131,6 +202,11 @@ static void remote_free(struct urefcount *urefcount)
 {
     (void)urefcount;
     remote_log(-1);
+    if (R.pump) {
+        upump_stop(R.pump);
+        upump_free(R.pump);
+        R.pump = NULL;
+    }
     upipe_throw_dead(&R.upipe);
     upipe_release(R.output);
     R.output = NULL;
@@ -173,6 +249,8 @@ static void setup(void)
     g_script_done = false;
     g_sent = 0;
     g_work = NULL;
+    g_stuck = -1;
+    g_idle[0] = g_idle[1] = false;
     struct px_cfg cfg = {.pool = 0, .prepend = 0, .append = 0, .align = 0};
     px_fix_init(&fx, &cfg);
     fx.on_event = on_event;
@@ -204,6 +282,8 @@ static void setup(void)
     urefcount_init(&R.urefcount, remote_free);
     R.upipe.refcount = &R.urefcount;
     upipe_throw_ready(&R.upipe);
+    if (g_kind == 2)
+        R.flow_def = px_flow(&fx, "block.", 1);
 }
 
 static bool loop_ready(void *arg)
@@ -228,7 +308,9 @@ static bool loop_once(int t)
     if (n == 0) {
         if (vmock_alive(g_mgr[t]) == 0)
             return false;
+        g_idle[t] = true;
         vs_wait(loop_ready, g_mgr[t]);
+        g_idle[t] = false;
         return true;
     }
     vs_point(VS_K_LOOP, NULL);
@@ -250,6 +332,23 @@ static void loop_step(int t)
         loop_once(t);
 }
 
+static bool quiescent(void *arg)
+{
+    (void)arg;
+    return loop_ready(g_mgr[0]) || (g_idle[1] && !loop_ready(g_mgr[1]));
+}
+
+/* buffers that reached the far end so far */
+static int arrived(void)
+{
+    if (g_kind == 1)
+        return R.narr;
+    int got = 0;
+    for (int i = 0; i < fx.nsrec; i++)
+        got += fx.srec[i].sink == 0 && fx.srec[i].kind == PXS_INPUT;
+    return got;
+}
+
 static void app(void *arg)
 {
     (void)arg;
@@ -258,9 +357,31 @@ static void app(void *arg)
         switch (*p) {
         case 'w':
             /* the worker takes over our references on the remote pipe and on its probe */
-            g_work = upipe_wlin_alloc(g_wlin_mgr, px_probe(&fx), &R.upipe, px_probe(&fx), g_qlen, g_qlen);
+            if (g_kind == 0)
+                g_work = upipe_wlin_alloc(g_wlin_mgr, px_probe(&fx), &R.upipe, px_probe(&fx), g_qlen, g_qlen);
+            else if (g_kind == 1)
+                g_work = upipe_wsink_alloc(g_wlin_mgr, px_probe(&fx), &R.upipe, px_probe(&fx), g_qlen);
+            else
+                g_work = upipe_wsrc_alloc(g_wlin_mgr, px_probe(&fx), &R.upipe, px_probe(&fx), g_qlen);
             assert(g_work);
             break;
+        case 'q': { /* run the application's loop until both sides are quiescent, then look at what arrived */
+            for (;;) {
+                if (loop_ready(g_mgr[0])) {
+                    loop_once(0);
+                    continue;
+                }
+                if (g_idle[1] && !loop_ready(g_mgr[1]))
+                    break;
+                vs_wait(quiescent, NULL);
+            }
+            int want = g_kind == 2 ? NSRC : g_sent;
+            if (arrived() < want && g_stuck < 0) {
+                g_stuck = want;
+                g_stuck_got = arrived();
+            }
+            break;
+        }
         case 'a': ubase_assert(upipe_attach_upump_mgr(g_work)); break;
         case 'o': ubase_assert(upipe_set_output(g_work, &fx.sinks[0].upipe)); break;
         case 'f':
@@ -307,7 +428,10 @@ static void remote(void *arg)
     }
 }
 
-static void cfg_str(char *b, size_t n) { snprintf(b, n, "worker:script=%s:qlen=%d", g_script, g_qlen); }
+static void cfg_str(char *b, size_t n)
+{
+    snprintf(b, n, "worker%s:script=%s:qlen=%d", g_kind == 0 ? "" : g_kind == 1 ? "-sink" : "-source", g_script, g_qlen);
+}
 
 static int check(int outcome, char *sig, char *msg)
 {
@@ -318,6 +442,32 @@ static int check(int outcome, char *sig, char *msg)
     else if (outcome == VS_HORIZON)
         fail("worker:livelock", "execution exceeded the horizon");
     int got = 0;
+    if (g_stuck >= 0)
+        fail("worker:stuck:idle-with-buffers-undelivered", "both loops were idle (no descriptor readable) with %d buffer(s) due, yet only %d had reached the far end",
+             g_stuck, g_stuck_got);
+    if (outcome == VS_DONE && g_kind == 1) {
+        /* sink worker: what the remote pipe consumed */
+        int expect_next = 0;
+        for (int i = 0; i < R.narr; i++) {
+            if (R.arr[i].thread != 1)
+                fail("thread:remote-entered-from-wrong-thread", "the remote sink got buffer seq=%d in thread %d", R.arr[i].seq, R.arr[i].thread);
+            if (R.arr[i].flow < 0)
+                fail("worker:data-before-definition", "buffer seq=%d reached the remote sink before any flow definition", R.arr[i].seq);
+            if (R.arr[i].seq < 0 || R.arr[i].seq >= g_sent)
+                fail("worker:invented", "buffer with sequence %d was never sent", R.arr[i].seq);
+            else if (R.arr[i].seq < expect_next)
+                fail(R.arr[i].seq == expect_next - 1 ? "worker:duplicated" : "worker:reordered", "buffer seq=%d arrived after seq=%d", R.arr[i].seq, expect_next - 1);
+            else {
+                for (int k = expect_next; k < R.arr[i].seq; k++)
+                    fail("worker:lost", "buffer seq=%d never arrived (seq=%d did)", k, R.arr[i].seq);
+                expect_next = R.arr[i].seq + 1;
+                if (g_sent_flow[R.arr[i].seq] != R.arr[i].flow)
+                    fail("worker:wrong-definition", "buffer seq=%d was sent under flow %d but the remote sink's last definition is flow %d", R.arr[i].seq,
+                         g_sent_flow[R.arr[i].seq], R.arr[i].flow);
+            }
+        }
+        got = R.narr;
+    }
     if (outcome == VS_DONE) {
         for (int i = 0; i < R.nent; i++)
             if (R.ent[i].thread != 1)
@@ -358,7 +508,7 @@ static int check(int outcome, char *sig, char *msg)
             }
         }
         bool wired = strchr(g_script, 'a') && strchr(g_script, 'o') && strchr(g_script, 'o') < strchr(g_script, 'i');
-        if (wired)
+        if (wired && g_kind == 0)
             for (int k = expect_next; k < g_sent; k++)
                 fail("worker:lost", "buffer seq=%d never arrived although both loops ran until idle", k);
         for (int i = 0; i < fx.nerec; i++) {
@@ -413,6 +563,7 @@ int main(int argc, char **argv)
     for (int i = 1; i + 1 < argc; i++) {
         if (!strcmp(argv[i], "--script")) g_script = argv[i + 1];
         else if (!strcmp(argv[i], "--qlen")) g_qlen = atoi(argv[i + 1]);
+        else if (!strcmp(argv[i], "--kind")) g_kind = atoi(argv[i + 1]);
     }
     opt.kind_mask = 0xffffffffu & ~((1u << 5) | (1u << 6));
     if (opt.replay && strchr(opt.replay, '@'))
